@@ -182,6 +182,21 @@ func c07() []*Ob {
 				if a := c.Fn("(*fracmanager.proxyFrac).Append"); a != nil {
 					la := Locksets(a, nil)
 					adds := CallsIn(a, OnField(Callee("(*sync.WaitGroup).Add"), "fracmanager.proxyFrac", "indexWg"))
+					// the lock, the state test and the registration may live in a private helper that hands the writable
+					// fraction back: they are then judged there, and Append may use what the helper returned with a nil error
+					var gate *ssa.Function
+					var gateCall ssa.CallInstruction
+					if len(adds) == 0 {
+						for _, call := range CallsIn(a, nil) {
+							h := StaticCallee(call)
+							if h == nil || h.Blocks == nil || !c.P.InRepo(h) || ErrorResultIndex(h) < 0 {
+								continue
+							}
+							if hs := CallsIn(h, OnField(Callee("(*sync.WaitGroup).Add"), "fracmanager.proxyFrac", "indexWg")); len(hs) > 0 {
+								gate, gateCall, adds, la = h, call, hs, Locksets(h, nil)
+							}
+						}
+					}
 					if len(adds) == 0 {
 						c.Violation("order:proxyFrac.Append:noAdd", a.Pos(), "proxyFrac.Append no longer registers the write in indexWg")
 					}
@@ -203,6 +218,24 @@ func c07() []*Ob {
 							cl, ok := x.(ssa.CallInstruction)
 							return ok && isActive(cl)
 						})
+						if gate != nil && !found {
+							// through the gate: nil error at the use, and the gate answers nil only in the writable state
+							okGate := true
+							for _, rp := range ReturnPaths(gate, ErrorResultIndex(gate)) {
+								if DefinitelyNonNil(rp.Val, rp.Facts) {
+									continue
+								}
+								if gv, gf := BoolFact(rp.Facts, func(x ssa.Value) bool {
+									cl, ok := x.(ssa.CallInstruction)
+									return ok && isActive(cl)
+								}); !(gf && gv) {
+									okGate = false
+								}
+							}
+							if ev := ErrorResult(gateCall); okGate && ev != nil && KnownNil(FactsAtInstr(ap.(ssa.Instruction)), ev) {
+								found, v = true, true
+							}
+						}
 						if found && v {
 							c.Site(ap.Pos(), "Active.Append is reached only in the writable state")
 						} else {
@@ -544,7 +577,8 @@ func c07() []*Ob {
 					}
 				}
 				if fn := c.Fn("(*fracmanager.FracManager).Append"); fn != nil {
-					viol, oks, res := SimAck(fn, Callee("(*fracmanager.proxyFrac).Append"), nil)
+					// the attempt itself, or a private helper that succeeds only when the attempt did
+					viol, oks, res := SimAck(fn, c.P.AckCall(Callee("(*fracmanager.proxyFrac).Append", "(frac.Fraction).Append", "(fracmanager.activeWriter).Append")), nil)
 					c.Count("paths_simulated", res.Paths)
 					for _, v := range viol {
 						c.Violation("simack:FracManager.Append", v.Ret.Pos(), "FracManager.Append can return success although %s", v.Why)
